@@ -17,16 +17,29 @@ PROPERTY = "C20"
 LEVEL = "exploration"
 
 
-def one(N, m, bx, env, trials, run=None, probe=False):
+def one(N, m, bx, env, trials, run=None, probe=False, mode="seq"):
     """one Solve with density m; returns (messages, points logged, distinct cells).
     probe: the trials are made one by one and the user asks solver.evolvent for the inverse image of an arbitrary box
     point between two iterations (a read-only query must not move the next trial off the grid)."""
     cfg = dict(N=N, box=bx, r=2.0, eps=0.0, itersLimit=trials, density=m, env=env)
     if run is None:
         run = tree.make_run(cfg, make_env(env, cfg))
+    if mode == "positional":
+        # the documented parameter order used positionally: SolverParameters(eps, r, itersLimit, evolventDensity)
+        from iOpt.solver import Solver
+        from iOpt.solver_parametrs import SolverParameters
+        from mc.common import quiet
+        with quiet():
+            run.solver = Solver(run.problem, SolverParameters(0.0, 2.0, trials, m))
     msgs = []
     try:
-        if probe:
+        if mode == "refine":
+            # step-wise: a few global iterations, a local refinement, many more global iterations
+            fenv = make_env(env, cfg)
+            run.step(min(10, trials))
+            run.refine(12, lambda y: fenv(0, y))
+            run.step(3 * trials)
+        elif probe:
             lo_, up_ = box(bx, N)
             q = np.array(lo_, dtype=float) + (np.array(up_, dtype=float) - np.array(lo_, dtype=float)) * 0.3137
             for j in range(min(trials, 12)):
@@ -36,7 +49,10 @@ def one(N, m, bx, env, trials, run=None, probe=False):
         else:
             run.solve()
     except BaseException as e:
-        return [f"N={N} evolventDensity={m} box={bx} {env}: Solve raised {type(e).__name__}: {e}"], 0, 0
+        if not tree._horizon(run, cfg):
+            return [f"N={N} evolventDensity={m} box={bx} {env}: Solve raised {type(e).__name__}: {e}"], 0, 0
+        # the step-wise search ran into the resolution horizon (doubles cannot split the best interval): the trials made
+        # so far are judged below
     lo, up = box(bx, N)
     lo_a = np.array(lo, dtype=float)
     w = np.array(up, dtype=float) - lo_a
@@ -68,7 +84,7 @@ def history(task):
             pending = mk(seq[i + 1]) if i + 1 < len(seq) else None
             mm, n, nc = one(N, m, bx, env, trials, run=cur)
         else:
-            mm, n, nc = one(N, m, bx, env, trials, probe=(mode == "probe"))
+            mm, n, nc = one(N, m, bx, env, trials, probe=(mode == "probe"), mode=mode)
         pts += n
         multi += nc > 3
         done += 1
@@ -87,7 +103,7 @@ def run(ctx):
         for bx in BOXES + ("Z", "D", "E", "S"):
             for env in ("lin", "abs13", "const"):
                 for ms in (up_, down):
-                    for mode in ("seq", "pair", "probe"):
+                    for mode in ("seq", "pair", "probe") + (("positional", "refine") if bx in ("B1", "D") else ()):
                         tasks.append(dict(N=N, box=bx, env=env, trials=200 if th else 30, ms=ms, mode=mode))
     out = pmap(history, tasks, chunksize=2)
     pts = multi = solves = 0
